@@ -61,21 +61,22 @@ def mc_for(pid, tier):
 def shards_general(tier, scale=1.0):
     if tier == "quick":
         base = [("random", 4000), ("random", 4000), ("contact", 4000), ("contact", 4000), ("contact", 4000),
-                ("diagrams", 4000), ("diagrams", 3000), ("setup", 3000), ("shuffle", 3000), ("confined", 4000), ("confined", 4000)]
+                ("diagrams", 4000), ("diagrams", 3000), ("setup", 3000), ("shuffle", 3000), ("confined", 4000), ("confined", 4000),
+                ("wide", 3000)]
     else:
         base = []
         for _ in range(8):
             base += [("random", 12000), ("contact", 12000), ("contact", 12000), ("diagrams", 8000), ("setup", 6000),
-                     ("shuffle", 8000), ("confined", 12000)]
+                     ("shuffle", 8000), ("confined", 12000), ("wide", 8000)]
     return [(d, int(n * scale)) for d, n in base]
 
 
 def shards_repetition(tier):
     if tier == "quick":
-        return [("confined", 5000)] * 8 + [("shuffle", 4000)] * 2 + [("contact", 3000), ("random", 3000), ("diagrams", 2000), ("setup", 3000), ("setup", 3000)]
+        return [("confined", 5000)] * 8 + [("shuffle", 4000)] * 2 + [("contact", 3000), ("random", 3000), ("diagrams", 2000), ("setup", 3000), ("setup", 3000), ("wide", 3000)]
     out = []
     for _ in range(8):
-        out += [("confined", 12000)] * 4 + [("shuffle", 10000)] + [("contact", 10000), ("random", 10000), ("diagrams", 6000), ("setup", 8000)]
+        out += [("confined", 12000)] * 4 + [("shuffle", 10000)] + [("contact", 10000), ("random", 10000), ("diagrams", 6000), ("setup", 8000), ("wide", 8000)]
     return out
 
 
@@ -127,12 +128,25 @@ def shards_rules(tier):
     # C01 / C12: the general mix plus high-volume two-ply probes around one push start / pull lead, dense
     # neighbourhoods, edge and corner squares over-represented, pieces on the squares that alias across the a/h edge
     if tier == "quick":
-        return shards_general(tier) + [("focus", 10000)] * 8
-    return shards_general(tier) + [("focus", 40000)] * 28
+        return shards_general(tier) + [("focus", 10000)] * 6 + shards_grid(tier)
+    return shards_general(tier) + [("focus", 40000)] * 28 + shards_grid(tier)
+
+
+def shards_grid(tier):
+    # the situation grid (harness/src/positions.rs, grid_positions): one root per (rule clause, square,
+    # direction, colour) - 64 k roots, ~160 k events, ENUMERATED; cut into slices for parallel validation.
+    # quick: one rotation of the piece types (chosen by the seed); thorough: all seven
+    if tier == "quick":
+        return [("grid", 100000000, [str(k), "8"]) for k in range(8)]
+    return [("grid", 100000000, [str(k), "8", str(rot)]) for rot in range(7) for k in range(8)]
 
 
 def shards_capture(tier):
     return shards_general(tier) + ([("focus", 8000)] * 3 if tier == "quick" else [("focus", 30000)] * 10)
+
+
+def shards_nopanic(tier):
+    return shards_capture(tier) + shards_grid(tier)
 
 
 def shards_unclean(tier):
@@ -146,7 +160,7 @@ def shards_results(tier):
 
 
 SHARDS = {
-    "C01": shards_rules, "C12": shards_rules, "C02": shards_unclean, "C10": shards_unclean, "C13": shards_capture, "C19": shards_capture,
+    "C01": shards_rules, "C12": shards_rules, "C02": shards_unclean, "C10": shards_unclean, "C13": shards_capture, "C19": shards_nopanic,
     "C04": shards_results,
     "C05": shards_repetition, "C06": shards_repetition, "C07": shards_repetition,
     "C09": shards_setup,
